@@ -1206,3 +1206,4 @@ v("c18-sort-skipped-when-monotonic", "C18", PB, "            if len(order_cols) 
 
 v("d171-view-names-not-counted", "C15", SM, "            view_name = getattr(cursor, \"view_name\", None)\n            if isinstance(view_name, str):\n                user_names.append(view_name)\n", "")
 v("d172-xicor-scratch-unchecked", "C15", SOL, "    assert \"_da_xicor_tmp_order\" not in d_col_set\n", "")
+v("d173-polars-selector-names-unrefused", "C15", PM, "                if (c == \"*\") or (c.startswith(\"^\") and c.endswith(\"$\")):\n                    raise ValueError(\n                        f\"Polars would read the column name {repr(c)} as a selector\"\n                    )\n", "                pass\n")
